@@ -11,13 +11,14 @@ TB = ("trusted base: rustc's MIR construction and Instance resolution for the re
 CLAIMS = {
  'C08': dict(
    technique="panic-site enumeration over MIR (Assert terminators + precondition-carrying std calls + explicit panics) with discharge by constants, a difference-bound (zone) domain over dominating guards, type/definition bounds, length provenance, and a reviewed invariant table whose required guards are re-checked; user-controlled operands tracked by inter-procedural taint",
-   text=("Static, whole API surface: every panic-capable site reachable from the library's pub API and from every dictionary word (247 on the "
+   text=("Static, whole API surface: every panic-capable site reachable from the library's pub API and from every dictionary word (about 250 on the "
          "current tree) is enumerated from the overflow-checked MIR and must be discharged by D-CONST / D-ZONE / D-TYPE / D-LEN / D-INFALLIBLE or "
-         "by a reviewed entry (108) carrying a one-line invariant argument and, where one exists, a guard pattern or structural predicate that "
+         "by a reviewed entry (about 100) carrying a one-line invariant argument and, where one exists, a guard pattern or structural predicate that "
          "is re-evaluated on every run; an operand derived from user integers is never discharged by the allocation-size assumption. A new "
          "unchecked arithmetic / index / unwrap on user data, or the removal of a guard a discharge rests on, is reported. Decides panic-"
          "freedom up to the soundness of those rules and the reviewed arguments; stack exhaustion, allocation failure and panics inside "
-         "dependencies whose documented preconditions hold are outside."),
+         "dependencies whose documented preconditions hold are outside. "
+         "Site classes include run-time format widths (must fit u16). Further discharge rules: D-CURSOR (lexer slices bounded by earlier cursor values), D-POS (index found by position() over the same collection), D-CALLER (a helper or closure judged where it is used)."),
    ref='§3 C08'),
  'C11': dict(
    technique="MIR who-may-access analysis of data_stack/heap over the word registry with slice-bound provenance, control-dependence sets of the purge statements, who-may-call for run()",
@@ -26,7 +27,8 @@ CLAIMS = {
          "stack access in any word is a length read, a floor-guarded primitive, or a slice that starts at a mark made inside the current "
          "context; every heap access in any word is behind `mode != MetaEval`; context_close purges code, debug map and non-constant "
          "dictionary entries under the MetaEval test and nothing else; run() is called only by the drive functions and, in the builder, only "
-         "under a mode test (compile executes nothing)."),
+         "under a mode test (compile executes nothing). "
+         "Also: the result emission of context_close reads the pending flows of the enclosing context only; const updates an entry of its own context in place."),
    ref='§3 C11'),
  'C01': dict(
    technique="MIR provenance of jump encodings and placeholder origins, flow-variant producer/consumer matching, arm-wise path analysis of the VM (custom extractor, Python rules)",
@@ -34,7 +36,8 @@ CLAIMS = {
          "validation and NOT decided. Decided: the jump codec encodes the distance on every path (zero stays zero) and decodes by addition; "
          "every placeholder jump is recorded in a pending flow or patched in place, every origin-carrying flow has a patching consumer and "
          "patchable opcode kinds; every loop closer handles a pending Break and only the counted-loop closer builds Opcode::Break; in the VM, Do/"
-         "Loop/Break/Call/Ret push/pop the loop/return stack exactly on the paths that warrant it and no other arm touches them."),
+         "Loop/Break/Call/Ret push/pop the loop/return stack exactly on the paths that warrant it and no other arm touches them. "
+         "Also decided (R5 bindings): Opcode::InitLocal overwrites slot i when it exists and appends only otherwise; a variable definition allocates a fresh cell, enters it in the dictionary on every successful path and compiles that very cell."),
    ref='§3 C01'),
  'C04': dict(
    technique="ownership/who-may-call analysis of the single mutable buffer accessor + dominance of buffer normalisation over length-relative and accumulating writes (MIR)",
@@ -42,7 +45,8 @@ CLAIMS = {
          "invert/export) is value-level and NOT decided. R1 operands are never modified: the only mutable buffer access is data_mut = "
          "Rc::make_mut + Cow::to_mut, called only on receivers owned by value, unreachable from any &self method; the range of a borrowed "
          "value is written only by read. R2 storage history cannot leak: every append-at-len or `|=` write through data_mut is dominated by "
-         "truncate(upper_bound_index(end)) and by a tail-bit mask guarded only by end % 8 > 0."),
+         "truncate(upper_bound_index(end)) and by a tail-bit mask guarded only by end % 8 > 0. "
+         "R3 who reads raw bytes: the backing buffer is read only by the offset-aware primitives (bit iterator, iter8/cut_bits, to_uint) and by slice() behind both alignment tests."),
    ref='§3 C04'),
  'C12': dict(
    technique="variant-pair table extraction from nested discriminant switches (eq vs cmp agreement) + receiver provenance of rpds *_mut calls + builder/boundary shape rules",
@@ -50,7 +54,8 @@ CLAIMS = {
          "pairs equal? compares vs which the map/sort ordering orders, and whether the ordering falls back to a constant Equal (violated on "
          "the pinned tree: two listed known findings, pinned by an existing test); every in-place rpds mutation has a function-local owned "
          "receiver (collections are values); literal builders insert in source order before popping; relative_index has the exact "
-         "boundaries |i| > len / i >= len."),
+         "boundaries |i| > len / i >= len. "
+         "Also: each type is ordered by its own PartialOrd/Ord (the order its == belongs to); index arguments are converted without wrapping; length and slice of a string use one unit (characters)."),
    ref='§3 C12'),
  'C09': dict(
    technique="inter-procedural operator-signature extraction per word (MIR binops, resolved std callees, reified fn items/closures) + dominance of zero tests + provenance of error payloads",
